@@ -1,7 +1,7 @@
 #!/bin/bash
 # confirm_mut.sh <PID> <k>: independently confirm mutation k of /tmp/wt_<PID> in that scratch worktree and,
 # if confirmed, store it under /verif/seeded/<PID>_m<k>/ (patch.diff, demo, meta.json with what was run).
-pid=$1; k=$2; wt=/tmp/wt_$pid; md=$wt/mutations/m$k
+pid=$1; k=$2; label=${3:-}; wt=/tmp/wt_$pid; md=$wt/mutations/m$k
 export GOFLAGS=-mod=mod GOPROXY=off
 cd $wt || exit 9
 git checkout -q -- . ; 
@@ -20,7 +20,7 @@ git checkout -q -- .
 run_demo; without=$?
 echo "$pid m$k: suite_fails=[$fails] demo_with_mutation_rc=$with demo_without_rc=$without"
 if [ -z "$fails" ] && [ $with -ne 0 ] && [ $without -eq 0 ]; then
-  d=/verif/seeded/${pid}_m$k; mkdir -p $d; cp $md/patch.diff $d/; cp $demo $d/demo_test.go
+  d=/verif/seeded/${pid}_${label}m$k; mkdir -p $d; cp $md/patch.diff $d/; cp $demo $d/demo_test.go
   python3 - <<PY
 import json
 m=json.load(open('$md/meta.json'))
